@@ -313,17 +313,23 @@ impl<'a> Hist<'a> {
 
     /// Update, at a quiescent point, since when each route has been continuously cached by a live worker.
     pub fn track_cache_membership(&mut self) {
-        let now = (self.sim.now_ns(), self.sim.with(|s| s.steps));
-        let mut present: Vec<usize> = Vec::new();
+        // membership is recorded at every state the worker publishes (hist.rs, probe callback); a dead worker's record is void
+        let mut out: std::collections::BTreeMap<usize, (u64, u64)> = Default::default();
         for d in 0..self.n_dst {
-            if let Some((_, cached)) = self.view(self.pair(d)) {
-                present.extend(cached.iter().map(|(r, _)| *r));
+            let pair = self.pair(d);
+            if self.view(pair).is_none() {
+                continue;
+            }
+            let key = pair_key(pair);
+            for ((k, f), since) in self.member_since.lock().unwrap().iter() {
+                if *k == key {
+                    if let Some(r) = self.route_of_fp(f) {
+                        out.insert(r, *since);
+                    }
+                }
             }
         }
-        self.in_cache_since.retain(|r, _| present.contains(r));
-        for r in present {
-            self.in_cache_since.entry(r).or_insert(now);
-        }
+        self.in_cache_since = out;
     }
 
     /// C07 (2): a path carrying a fresh penalty is not handed out while a clean valid alternative is cached.
